@@ -114,27 +114,41 @@ def replay_cex(ctx, res, kind):
 
 
 # --------------------------------------------------------------------------- spec -> code replay
-def plan_for(ctx, n, exhaustive):
+def plan_for(ctx, n):
     if n <= 4:
-        return dict(full=not ctx.quick, both_modes=True, n_mbm=5, n_oct=3, n_ind=3, full_walk=not ctx.quick,
-                    n_walk=8, n_walkopt=5, p_model=0.004)
+        # all (c, D) merge-base questions, all fast-forward pairs, every set in two orders for octopus /
+        # independent; walks: all (include set, exclude set) pairs in the thorough tier
+        return dict(full=True, both_modes=True, n_mbm=0, n_oct=0, n_ind=0, full_walk=not ctx.quick, topo_frac=0.25,
+                    n_walk=12, n_walkopt=6, p_model=0.004)
     if n == 5:
-        return dict(full=False, both_modes=False, n_mbm=6, n_oct=4, n_ind=3, full_walk=False,
-                    n_walk=8, n_walkopt=5, p_model=0.001 if not ctx.quick else 0.004)
-    return dict(full=False, both_modes=False, n_mbm=8, n_oct=5, n_ind=4, full_walk=False,
-                n_walk=10, n_walkopt=6, p_model=0.002)
+        return dict(full=False, both_modes=False, n_mbm=4, n_oct=3, n_ind=2, full_walk=False,
+                    n_walk=4, n_walkopt=2, topo_frac=0.5, p_model=0.0005 if not ctx.quick else 0.004)
+    return dict(full=False, both_modes=False, n_mbm=6, n_oct=4, n_ind=3, full_walk=False,
+                n_walk=6, n_walkopt=3, topo_frac=0.5, p_model=0.001)
 
 
-def replay_dump(ctx, pool, n, dump, label):
+def replay_dump(ctx, pool, n, dump, label, budget_s):
+    """Replay the TLC-enumerated cases of one dump on the real code.  DAGs are taken in a
+    seed-determined order; no new DAG is started after budget_s seconds (the evidence says how
+    many were done)."""
     t0 = time.time()
     tables, cases = L.read_cases(dump)
-    plan = plan_for(ctx, n, True)
-    tasks = [dict(n=n, par=p, table=tables[p], cases=cs, plan=plan, seed=ctx.seed) for p, cs in cases.items()]
+    plan = plan_for(ctx, n)
+    tasks = [dict(n=n, par=p, table=tables[p], cases=cs, plan=plan, seed=ctx.seed) for p, cs in sorted(cases.items())]
+    ctx.rng.shuffle(tasks)
     ncase = sum(len(cs) for cs in cases.values())
-    chunk = max(1, min(64, len(tasks) // (PROCS * 8)))
-    stats = {"cases": 0, "queries": 0, "suspect": 0, "by_kind": {}}
+    chunk = max(1, min(32, len(tasks) // (PROCS * 16)))
+    stats = {"cases": 0, "queries": 0, "suspect": 0, "by_kind": {}, "dags_done": 0, "tlc_cases_done": 0}
+
+    def feed():
+        for t in tasks:
+            if time.time() - t0 > budget_s:
+                return
+            stats["dags_done"] += 1
+            stats["tlc_cases_done"] += len(t["cases"])
+            yield t
     records = []
-    for r in pool.imap_unordered(L.run_dag, tasks, chunksize=chunk):
+    for r in pool.imap_unordered(L.run_dag, feed(), chunksize=chunk):
         stats["cases"] += r["cases"]
         stats["queries"] += r["queries"]
         stats["suspect"] += r["suspect_q"]
@@ -147,11 +161,14 @@ def replay_dump(ctx, pool, n, dump, label):
         records += r["records"]
     ctx.count(stats["queries"])
     ctx.validated(stats["queries"])
-    ctx.log(f"{label}: {len(tables)} DAGs x clocks = {ncase} TLC cases -> {stats['cases']} histories built, "
+    complete = stats["dags_done"] == len(tasks)
+    ctx.log(f"{label}: {len(tables)} DAGs x clocks = {ncase} TLC cases; replayed {stats['tlc_cases_done']} of them "
+            f"({stats['dags_done']} DAGs{'' if complete else ', time budget reached'}) as {stats['cases']} histories, "
             f"{stats['queries']} real queries, {stats['suspect']} do not match the table "
             f"({', '.join(f'{k}:{v[1]}/{v[0]}' for k, v in sorted(stats['by_kind'].items()))})  [{time.time() - t0:.0f}s]")
     ctx.cov.setdefault("replay", []).append({"label": label, "n": n, "dags": len(tables), "tlc_cases": ncase,
-                                             "histories": stats["cases"], "queries": stats["queries"],
+                                             "dags_replayed": stats["dags_done"], "tlc_cases_replayed": stats["tlc_cases_done"],
+                                             "complete": complete, "histories": stats["cases"], "queries": stats["queries"],
                                              "mismatch": stats["suspect"], "by_kind": stats["by_kind"]})
     return records
 
@@ -214,6 +231,8 @@ def run_random(task):
                 qs.append(("mb", a, [b]))
             elif r < 0.30:
                 s = pick(rng.randint(3, 4))
+                if len(s) < 2:
+                    s = sorted({s[0], 1 + s[0] % n})
                 rng.shuffle(s)
                 qs.append(("mb", s[0], s[1:]))
             elif r < 0.52:
@@ -294,7 +313,11 @@ def run_random(task):
             if a is not None:
                 q["g"] = [a]
                 ng += 1
+                if q["pre"] == 1 and not ex.check(q)[0]:      # only the date-order clause can change it
+                    q["pre"], q["m"] = 0, 1
+                    nmiss += 1
         res["git"] = ng
+        res["mismatch"] = nmiss
         # --- the same questions with a commit-graph file (dulwich's writer, then git's)
         for writer in ("dulwich", "git"):
             try:
@@ -500,12 +523,12 @@ def report(ctx, judged):
 # --------------------------------------------------------------------------- entry
 def run(ctx):
     d = ctx.tmpdir("c13")
-    jobs = Jobs(slots=3, w=2)
+    jobs = Jobs(slots=ctx.pick(3, 2), w=ctx.pick(2, 4))
     seed = ctx.seed
     # ---- 1. TLC enumerates the cases (spec -> code input)
     jobs.submit("cases4", "GraphCases.tla", cases_cfg(d, "cases4", 4, 4, 0, seed), dump_states=os.path.join(d, "cases4"), workers=3)
     if ctx.quick:
-        jobs.submit("cases5", "GraphCases.tla", cases_cfg(d, "cases5", 5, 5, 2, seed), dump_states=os.path.join(d, "cases5"))
+        jobs.submit("cases5", "GraphCases.tla", cases_cfg(d, "cases5", 5, 5, 4, seed), dump_states=os.path.join(d, "cases5"))
     else:
         jobs.submit("cases5", "GraphCases.tla", cases_cfg(d, "cases5", 5, 5, 0, seed), dump_states=os.path.join(d, "cases5"), workers=4)
         jobs.submit("cases6", "GraphCases.tla", cases_cfg(d, "cases6", 6, 6, 4, seed), dump_states=os.path.join(d, "cases6"), workers=6)
@@ -530,24 +553,23 @@ def run(ctx):
     ctx.log(f"graph.py variant implemented by this tree: UseMinStamp={usemin} Reduce={reduce}")
     # ---- 3. the algorithms as state machines against the definitions
     exact = ["Exact"] if (reduce and not usemin) else []
+    rep = ["Exact", "FfFromLcasExact"]
     mcs = []
     if ctx.quick:
-        mcs.append(("mc_lcas", dict(n=4, l=4, mode="lcas", usemin=usemin, reduce=reduce, maxd=1, inv=INV_LCAS + exact)))
+        mcs.append(("mc_lcas", dict(n=4, l=3, mode="lcas", usemin=usemin, reduce=reduce, maxd=1, inv=INV_LCAS + exact)))
         mcs.append(("mc_ff", dict(n=4, l=3, mode="ff", usemin=usemin, reduce=reduce, inv=INV_FF + exact)))
         mcs.append(("mc_walk", dict(n=4, l=3, mode="walk", usemin=usemin, reduce=reduce, maxd=1, maxextra=1, inv=INV_WALK)))
-        mcs.append(("mc_repaired_lcas", dict(n=4, l=3, mode="lcas", usemin=False, reduce=True, maxd=1, inv=INV_LCAS + ["Exact"])))
-        mcs.append(("mc_repaired_ff", dict(n=4, l=3, mode="ff", usemin=False, reduce=True, inv=INV_FF + ["Exact"])))
+        mcs.append(("mc_repaired", dict(n=4, l=3, mode="lcas", usemin=False, reduce=True, maxd=1, inv=INV_LCAS + rep)))
     else:
-        mcs.append(("mc_lcas4", dict(n=4, l=4, mode="lcas", usemin=usemin, reduce=reduce, maxd=3, inv=INV_LCAS + exact)))
         mcs.append(("mc_lcas5", dict(n=5, l=3, mode="lcas", usemin=usemin, reduce=reduce, maxd=1, tiebreak="asc", inv=INV_LCAS + exact)))
-        mcs.append(("mc_ff4", dict(n=4, l=4, mode="ff", usemin=usemin, reduce=reduce, inv=INV_FF + exact)))
         mcs.append(("mc_ff5", dict(n=5, l=3, mode="ff", usemin=usemin, reduce=reduce, tiebreak="asc", inv=INV_FF + exact)))
+        mcs.append(("mc_repaired5", dict(n=5, l=3, mode="lcas", usemin=False, reduce=True, maxd=1, tiebreak="asc", inv=INV_LCAS + rep)))
+        mcs.append(("mc_lcas4", dict(n=4, l=4, mode="lcas", usemin=usemin, reduce=reduce, maxd=3, inv=INV_LCAS + exact)))
+        mcs.append(("mc_ff4", dict(n=4, l=4, mode="ff", usemin=usemin, reduce=reduce, inv=INV_FF + exact)))
+        mcs.append(("mc_repaired4", dict(n=4, l=4, mode="lcas", usemin=False, reduce=True, maxd=3, inv=INV_LCAS + rep)))
         for me in (1, 2, 5):
             mcs.append((f"mc_walk4_slop{me}", dict(n=4, l=4, mode="walk", usemin=usemin, reduce=reduce, maxd=2, maxextra=me, inv=INV_WALK)))
         mcs.append(("mc_walk5", dict(n=5, l=2, mode="walk", usemin=usemin, reduce=reduce, maxd=1, maxextra=1, tiebreak="asc", inv=INV_WALK)))
-        mcs.append(("mc_repaired_lcas4", dict(n=4, l=4, mode="lcas", usemin=False, reduce=True, maxd=3, inv=INV_LCAS + ["Exact"])))
-        mcs.append(("mc_repaired_lcas5", dict(n=5, l=3, mode="lcas", usemin=False, reduce=True, maxd=1, tiebreak="asc", inv=INV_LCAS + ["Exact"])))
-        mcs.append(("mc_repaired_ff5", dict(n=5, l=3, mode="ff", usemin=False, reduce=True, tiebreak="asc", inv=INV_FF + ["Exact"])))
     for name, kw in mcs:
         jobs.submit(name, "GraphMC.tla", mc_cfg(ctx, d, name, **kw), coverage=False)
 
@@ -557,15 +579,16 @@ def run(ctx):
     try:
         r = jobs.get("cases4")
         ctx.add_tlc("GraphCases N=4: all 64 canonical DAGs x all 75 weak orders of timestamps", r)
-        records += replay_dump(ctx, pool, 4, os.path.join(d, "cases4"), "N=4 exhaustive")
+        records += replay_dump(ctx, pool, 4, os.path.join(d, "cases4"), "N=4 exhaustive", ctx.pick(25, 240))
         r = jobs.get("cases5")
-        ctx.add_tlc("GraphCases N=5: all 1024 canonical DAGs x " + ("2 sampled" if ctx.quick else "all 541") + " weak orders", r)
-        records += replay_dump(ctx, pool, 5, os.path.join(d, "cases5"), "N=5 " + ("sampled clocks" if ctx.quick else "exhaustive"))
+        ctx.add_tlc("GraphCases N=5: all 1024 canonical DAGs x " + ("4 sampled" if ctx.quick else "all 541") + " weak orders", r)
+        records += replay_dump(ctx, pool, 5, os.path.join(d, "cases5"), "N=5 " + ("sampled clocks" if ctx.quick else "exhaustive"),
+                               ctx.pick(12, 420))
         os.remove(os.path.join(d, "cases5.dump"))
         if not ctx.quick:
             r = jobs.get("cases6")
             ctx.add_tlc("GraphCases N=6: all 32768 canonical DAGs x 4 sampled weak orders", r)
-            records += replay_dump(ctx, pool, 6, os.path.join(d, "cases6"), "N=6 sampled clocks")
+            records += replay_dump(ctx, pool, 6, os.path.join(d, "cases6"), "N=6 sampled clocks", 180)
             os.remove(os.path.join(d, "cases6.dump"))
         # ---- 5. code -> spec: random large histories, disk repositories, commit-graph, C git
         nbig = ctx.pick(140, 1500)
@@ -626,7 +649,7 @@ def run(ctx):
     ctx.cov["rule"] = ("a case = one question (merge base of c and a set, fast-forward test, octopus base, independence filter, "
                        "history walk with options) put to the real dulwich function on a real repository built from a history; "
                        "histories: every canonical DAG x weak order of timestamps TLC enumerates (N=4 exhaustive, N=5 "
-                       + ("2 sampled clocks per DAG" if ctx.quick else "exhaustive, N=6 with 4 sampled clocks per DAG")
+                       + ("4 sampled clocks per DAG" if ctx.quick else "exhaustive, N=6 with 4 sampled clocks per DAG; see coverage.replay for how many were replayed inside the time budget")
                        + "), both id-order tie-breaks where timestamps tie, plus random histories of 8..300 commits; "
                        "distinct_nontrivial counts distinct histories that have at least one edge and two different timestamps")
     ctx.assumptions += [
